@@ -15,6 +15,7 @@ import (
 	"time"
 
 	"github.com/alicebob/miniredis/v2"
+	mrserver "github.com/alicebob/miniredis/v2/server"
 	"github.com/redis/go-redis/v9"
 
 	"github.com/istio-ecosystem/authservice/internal/oidc"
@@ -25,6 +26,7 @@ type StoreOp struct {
 	Sid string `json:"sid"` // s1, s2, ...
 	V   int    `json:"v"`   // value index (SetTok/SetAuth) or seconds (tick)
 	Via int    `json:"via"` // which store instance (Redis: two replicas attached to one server)
+	Fault int  `json:"fault"` // Redis: the k-th Redis command this operation issues fails (0 = none)
 	Thr int    `json:"thr"` // concurrent scenarios: goroutine index
 }
 
@@ -129,7 +131,7 @@ func floorSec(t time.Time) int64 {
 }
 
 func (d *storeDriver) probe(st oidc.SessionStore, mr *miniredis.Miniredis, sid string) map[string]any {
-	out := map[string]any{"ex": false, "auth": false, "tok": false, "created": 0, "ttl": -1}
+	out := map[string]any{"ex": false, "auth": false, "tok": false, "created": 0, "createdKnown": true, "ttl": -1}
 	if p := oidc.VerifProbeMemory(st, sid); p.Known {
 		out["ex"], out["auth"], out["tok"] = p.Ex, p.Auth, p.Tok
 		if p.Ex {
@@ -137,18 +139,75 @@ func (d *storeDriver) probe(st oidc.SessionStore, mr *miniredis.Miniredis, sid s
 		}
 		return out
 	}
-	if mr != nil && mr.Exists(sid) {
-		out["ex"] = true
-		out["auth"] = mr.HGet(sid, "state") != ""
-		out["tok"] = mr.HGet(sid, "id_token") != ""
-		if ta := mr.HGet(sid, "time_added"); ta != "" {
-			if t, err := time.Parse(time.RFC3339Nano, ta); err == nil {
-				out["created"] = floorSec(t)
+	if mr != nil {
+		knownTok := func(v string) bool {
+			for _, t := range d.toks {
+				if t.IDToken == v {
+					return true
+				}
 			}
+			return false
 		}
-		out["ttl"] = int64(mr.TTL(sid) / time.Second)
+		knownAuth := func(v string) bool {
+			for _, a := range d.auths {
+				if a.State == v {
+					return true
+				}
+			}
+			return false
+		}
+		p := projectRedis(mr, 0, sid, knownTok, knownAuth)
+		out["ex"], out["auth"], out["tok"] = p.ex, p.auth, p.tok
+		if p.ex {
+			out["createdKnown"] = p.createdKnown
+			if p.createdKnown {
+				out["created"] = floorSec(p.created)
+			}
+			out["ttl"] = p.ttl
+		}
 	}
 	return out
+}
+
+type redisProjection struct {
+	ex, auth, tok, createdKnown bool
+	created                     time.Time
+	ttl                         int64
+}
+
+// projectRedis reads the session's projected state out of the Redis server without going through the store (a store
+// read counts as a use). It does not depend on how the store names its keys and hash fields: the session's key is the
+// one whose name ends in the session id, a member is present when some field holds a value known to be an ID token /
+// a login state, the creation time is the earliest time held in a field.
+func projectRedis(mr *miniredis.Miniredis, db int, sid string, isTok, isState func(string) bool) redisProjection {
+	var p redisProjection
+	m := mr.DB(db)
+	for _, k := range m.Keys() {
+		if k != sid && !strings.HasSuffix(k, sid) {
+			continue
+		}
+		fields, err := m.HKeys(k)
+		if err != nil {
+			continue
+		}
+		p.ex = true
+		p.ttl = int64(m.TTL(k) / time.Second)
+		for _, f := range fields {
+			v := m.HGet(k, f)
+			switch {
+			case isTok(v):
+				p.tok = true
+			case isState(v):
+				p.auth = true
+			default:
+				// the creation time is the earliest time the session holds (a token's expiry lies after the write that stored it)
+				if t, err := time.Parse(time.RFC3339Nano, v); err == nil && (!p.createdKnown || t.Before(p.created)) {
+					p.created, p.createdKnown = t, true
+				}
+			}
+		}
+	}
+	return p
 }
 
 func (d *storeDriver) run(sc *StoreScenario) error {
@@ -184,9 +243,30 @@ func (d *storeDriver) run(sc *StoreScenario) error {
 	}
 	d.rec.emit(map[string]any{"ev": "sreset", "scenario": sc.ID, "store": sc.Store, "abs": sc.Abs, "idle": sc.Idle, "conc": sc.Conc})
 	ctx := context.Background()
+	type heldRead struct {
+		tok  *oidc.TokenResponse
+		auth *oidc.AuthorizationState
+		idx  int
+	}
+	var held []heldRead
 	do := func(op StoreOp, thr int) {
 		st := stores[op.Via%len(stores)]
-		ev := map[string]any{"ev": "sop", "op": op.Op, "sid": op.Sid, "v": op.V, "via": op.Via % len(stores), "thr": thr, "res": 0, "err": false}
+		ev := map[string]any{"ev": "sop", "op": op.Op, "sid": op.Sid, "v": op.V, "via": op.Via % len(stores), "thr": thr, "res": 0, "err": false,
+			"faultHit": false, "mutated": 0}
+		var hit *bool
+		if op.Fault > 0 && mr != nil && !sc.Conc {
+			hit = new(bool)
+			n, k := 0, op.Fault
+			mr.Server().SetPreHook(func(c *mrserver.Peer, cmd string, args ...string) bool {
+				n++
+				if n == k {
+					*hit = true
+					c.WriteError("ERR verif: injected redis command fault")
+					return true
+				}
+				return false
+			})
+		}
 		if sc.Conc {
 			d.rec.emit(map[string]any{"ev": "sinv", "op": op.Op, "sid": op.Sid, "v": op.V, "thr": thr})
 		}
@@ -200,16 +280,42 @@ func (d *storeDriver) run(sc *StoreScenario) error {
 			var t *oidc.TokenResponse
 			t, err = st.GetTokenResponse(ctx, op.Sid)
 			ev["res"] = d.tokIndex(t)
+			if t != nil && !sc.Conc {
+				held = append(held, heldRead{tok: t, idx: d.tokIndex(t)})
+			}
 		case "GetAuth":
 			var a *oidc.AuthorizationState
 			a, err = st.GetAuthorizationState(ctx, op.Sid)
 			ev["res"] = d.authIndex(a)
+			if a != nil && !sc.Conc {
+				held = append(held, heldRead{auth: a, idx: d.authIndex(a)})
+			}
 		case "ClearAuth":
 			err = st.ClearAuthorizationState(ctx, op.Sid)
 		case "Remove":
 			err = st.RemoveSession(ctx, op.Sid)
 		case "sweep":
 			err = st.RemoveAllExpired(ctx)
+		}
+		if hit != nil {
+			mr.Server().SetPreHook(nil)
+			ev["faultHit"] = *hit
+		}
+		// what earlier reads returned are values: they do not change when the store is written later
+		for i := range held {
+			now := 0
+			if held[i].tok != nil {
+				now = d.tokIndex(held[i].tok)
+			} else {
+				now = d.authIndex(held[i].auth)
+			}
+			if now != held[i].idx && ev["mutated"] == 0 {
+				ev["mutated"] = 1
+				held[i].idx = now
+			}
+		}
+		if len(held) > 6 {
+			held = held[len(held)-6:]
 		}
 		ev["err"] = err != nil
 		ev["now"] = d.nowSec()
